@@ -89,6 +89,11 @@ class Mirror(CallbackListener):
 
     def wire_disconnect_pin(self, w, p):
         self.log.append(('conn-', id(w))); self.keep += [w, p]
+        stored = p
+        if isinstance(p, OuterPin) and p._instance is not None and hasattr(p._instance, '_pins'):
+            stored = p._instance._pins.get(p._inner_pin, p)
+        if self.key(p) in self.conn[id(w)] and not any(x is stored for x in getattr(w, '_pins', [])):
+            self.early.append('disconnect announced after the pin left the wire')
         self.conn[id(w)].discard(self.key(p))
 
     def instance_reference(self, i, v):
@@ -302,7 +307,7 @@ class Gen:
         return ['new', 'create_library', 'create_definition', 'create_port', 'create_cable', 'create_child', 'create_pin',
                 'create_pins', 'create_wire', 'create_wires', 'add', 'remove', 'remove_from', 'reorder', 'reorder_bad',
                 'connect', 'disconnect', 'disconnect_from', 'reference', 'unreference', 'top', 'set_top', 'name', 'data',
-                'deldata', 'popdata', 'scalar', 'wire_pins_proxy', 'add_pin_instanced', 'create_child_dup']
+                'deldata', 'popdata', 'scalar', 'wire_pins_proxy', 'add_pin_instanced', 'create_child_dup', 'add_cross']
 
     def next(self):
         r, W = self.r, self.W
@@ -348,6 +353,10 @@ class Gen:
             if not c: return None
             if not q: return {'op': 'new', 'args': ['InnerPin']}
             return call({'o': r.choice(c)}, 'add_pin', {'o': r.choice(q)}, pos())
+        if op == 'add_cross':
+            # a bundle of the other kind: Port where a Cable is expected and vice versa
+            meth, k = r.choice([('add_cable', 'Port'), ('add_port', 'Cable')])
+            return call(pick('Definition', wrong=0), meth, pick(k, wrong=0), pos())
         if op == 'add':
             rel = r.choice(irlib.REL)
             meth = {'libraries': 'add_library', 'definitions': 'add_definition', 'ports': 'add_port', 'cables': 'add_cable',
